@@ -16,7 +16,9 @@ func init() {
 	register("C08", "other", []string{
 		"decides: the no-match edge always records the unknown option built from the verbatim token; Pass and Warn both pass the token through; Parse applies the policy (Fail: error naming the first record, Warn: warning to Writer) before its success return; configuration read through the cursor is inherited by every child node; records survive command descent",
 		"does not decide the wording of messages",
-	}, rC08Record, passThroughRule("R08.1c"), rC08Policy, rInherit("R08.3"), rC08Handoff, rC08NewUnknown, rC08ModeWriters, exactStopsRule("R08.7"), func(w *World, r *Report) { subRule(w, r, rC02Lookahead, "R08.8", "an option-looking token is never swallowed as a value, known or not (same obligations as C02 R02.2)", 5) })
+	}, rC08Record, passThroughRule("R08.1c"), rC08Policy, rInherit("R08.3"), rC08Handoff, rC08NewUnknown, rC08ModeWriters, exactStopsRule("R08.7"), func(w *World, r *Report) {
+		subRule(w, r, rC02Lookahead, "R08.8", "an option-looking token is never swallowed as a value, known or not (same obligations as C02 R02.2)", 5)
+	})
 	register("C09", "other", []string{
 		"decides: both stop sites test the cursor's requireOrder before the non-ordered handling and bulk-copy the tail; nothing is interpreted afterwards; requireOrder is read nowhere else (so parsing before the stop point does not depend on it); the flag is inherited by every child node; the positional stop comes after the command scan",
 	}, rC09Sites, rC09Helper, rC09Readers, rInherit("R09.4"), rC09AfterBulk, typestateRule("R09.6"), exactStopsRule("R09.7"), rArgsUnmodified("R09.8"))
